@@ -21,6 +21,10 @@ Definition rl_fuel (n : Z) : nat := S (Z.to_nat (Z.log2 n)).
 
 Definition rl_encode (n : Z) : list Z := rl_enc (rl_fuel n) n.
 
+(* _pack_remaining_length since the repair of F-C04a (commit 4b93c7d):
+   if remaining_length > 268435455: raise ValueError('Packet too large.')  -- before anything is appended *)
+Definition rl_pack (n : Z) : res (list Z) := if n >? rl_max then Raise 1 else Ok (rl_encode n).
+
 (* Specification decoder. k = bytes still allowed (4 at the start), mult = 128^(bytes read),
    acc = value so far, first = no byte read yet.  A final byte 0 after a continuation byte is a
    non-minimal encoding and is rejected. *)
@@ -49,6 +53,13 @@ Definition entry_rl_encode (args : list Z) : list Z :=
   match args with
   | [n] => rl_encode n
   | _ => []
+  end.
+
+(* the repaired _pack_remaining_length: [n] -> [0; bytes...] or [1; exception kind] *)
+Definition entry_rl_pack (args : list Z) : list Z :=
+  match args with
+  | [n] => match rl_pack n with Ok l => 0 :: l | Raise k => [1; k] | OutOfFuel => [2] end
+  | _ => [3]
   end.
 
 (* [bytes...] -> [1; value; bytes consumed]  or [0] *)
